@@ -2215,10 +2215,11 @@ func c03EncodeFailureAnswered(c *Ctx) {
 		}
 		ir.EachInstr(fn, func(_ *ssa.BasicBlock, _ int, in ssa.Instruction) {
 			call, ok := in.(*ssa.Call)
-			if !ok || ir.CallName(call) != "encoding/json.Marshal" || call.Referrers() == nil {
+			isEncode := ok && ir.CallName(call) == "(*encoding/json.Encoder).Encode"
+			if !ok || (ir.CallName(call) != "encoding/json.Marshal" && !isEncode) || call.Referrers() == nil {
 				return
 			}
-			arg := call.Call.Args[0]
+			arg := call.Call.Args[len(call.Call.Args)-1]
 			for {
 				if ci, ok := arg.(*ssa.ChangeInterface); ok {
 					arg = ci.X
@@ -2227,7 +2228,19 @@ func c03EncodeFailureAnswered(c *Ctx) {
 				break
 			}
 			p, ok := arg.(*ssa.Parameter)
-			if !ok || !fedByDispatch(fn, p) {
+			if !ok {
+				return
+			}
+			// ... or the function is a responder: it is handed the request's writer, the request and the answer
+			responder := false
+			if hasWriterParam(fn) {
+				for _, q := range fn.Params {
+					if ir.TypeStr(q.Type()) == "*net/http.Request" {
+						responder = true
+					}
+				}
+			}
+			if !fedByDispatch(fn, p) && !responder {
 				return
 			}
 			var errv ssa.Value
@@ -2235,6 +2248,9 @@ func c03EncodeFailureAnswered(c *Ctx) {
 				if ex, ok := r.(*ssa.Extract); ok && ex.Index == 1 {
 					errv = ex
 				}
+			}
+			if isEncode {
+				errv = call // Encode returns the error itself
 			}
 			n++
 			construct := "failed encoding of a handler's result in " + fname(fn)
